@@ -2,9 +2,12 @@ package ipfilter
 
 // Harness for C05, first half (DESIGN 5/C05): the decision of the real IPFilter.
 //   TestVerifC05Vectors - replays the TLC-generated decision vectors of IPFilter_MC (small bit
-//                         widths, concretised below a public base address) on ipfilter.New/Allow (MBT)
+//                         widths - VERIF_W -, concretised below a public base address; the general
+//                         universe at width 2 and the universe of two same-size nets in one list at
+//                         width 3) on ipfilter.New/Allow (MBT)
 //   TestVerifC05Trace   - seeded random filters (single addresses, CIDRs of every prefix length,
-//                         IPv4 and IPv6, overlapping entries, the same entry on both lists) and
+//                         IPv4 and IPv6, overlapping entries, the same entry on both lists, the
+//                         next / previous net of the same size next to an entry) and
 //                         addresses biased to the prefix boundaries; the bits are computed with
 //                         net/netip (independent of the cidranger path of the code); the decisions
 //                         are recorded for TLC trace validation against IPFilter!Denied (TV)
@@ -170,6 +173,54 @@ func c05RandNet(r *rand.Rand, near []netip.Addr) vx.M {
 	return vx.M{"fam": fam, "bits": c05Bits(a, plen), "txt": fmt.Sprintf("%s/%d", a.String(), plen)}
 }
 
+// c05Neighbour: the net of the same size right after (or right before) n in address order: the
+// prefix, read as a number, plus (minus) one. Depending on the last prefix bit the two are the
+// halves of one supernet (10.0.0.0/24, 10.0.1.0/24) or not (10.0.1.0/24, 10.0.2.0/24; two
+// consecutive single addresses x.1, x.2). ok = false at the ends of the address space.
+func c05Neighbour(r *rand.Rand, n vx.M) (vx.M, bool) {
+	fam := vx.Int(n["fam"])
+	full := 32
+	if fam == 6 {
+		full = 128
+	}
+	src := vx.List(n["bits"])
+	plen := len(src)
+	if plen == 0 {
+		return nil, false
+	}
+	bits := make([]int, plen)
+	for i, x := range src {
+		bits[i] = vx.Int(x)
+	}
+	up := r.Intn(2) == 0
+	i := plen - 1
+	for ; i >= 0; i-- { // binary increment / decrement
+		if (bits[i] == 0) == up {
+			bits[i] ^= 1
+			break
+		}
+		bits[i] ^= 1
+	}
+	if i < 0 {
+		return nil, false
+	}
+	b := make([]byte, full/8)
+	for i, x := range bits {
+		if x != 0 {
+			b[i/8] |= 1 << (7 - uint(i%8))
+		}
+	}
+	a, _ := netip.AddrFromSlice(b)
+	if a.Is4In6() {
+		return nil, false
+	}
+	txt := fmt.Sprintf("%s/%d", a.String(), plen)
+	if plen == full && !strings.Contains(vx.Str(n["txt"]), "/") {
+		txt = a.String() // a bare address next to a bare address
+	}
+	return vx.M{"fam": fam, "bits": c05Bits(a, plen), "txt": txt}, true
+}
+
 // an address related to net n: inside, last prefix bit flipped, first host bit flipped relative
 // to the entry, last bit flipped
 func c05Around(r *rand.Rand, n vx.M) netip.Addr {
@@ -239,6 +290,13 @@ func TestVerifC05Trace(t *testing.T) {
 				if !seen[vx.Str(x["txt"])] {
 					seen[vx.Str(x["txt"])] = true
 					out = append(out, x)
+				}
+				// now and then the next / previous net of the same size goes into the same list
+				if r.Intn(3) == 0 {
+					if y, ok := c05Neighbour(r, x); ok && !seen[vx.Str(y["txt"])] {
+						seen[vx.Str(y["txt"])] = true
+						out = append(out, y)
+					}
 				}
 			}
 			return out
